@@ -252,7 +252,7 @@ func execute(in Input) (obs []Obs, failure string) {
 	}()
 	select {
 	case <-done:
-	case <-time.After(20 * time.Second):
+	case <-time.After(hangTimeout):
 		return obs, "hang"
 	}
 	return obs, failure
@@ -295,7 +295,11 @@ func signature(in Input, obs []Obs, failure string) string {
 	return "mempool-order-expiry-or-stream"
 }
 
-func run(in Input, kind string) emit.Case {
+// hangTimeout bounds one case; a hang is reported as a failing case and ends the run at once (the stuck
+// goroutine may be allocating without bound).
+const hangTimeout = 8 * time.Second
+
+func run(in Input, kind string) (emit.Case, bool) {
 	obs, failure := execute(in)
 	ops := make([]string, len(in.Ops))
 	for i, o := range in.Ops {
@@ -317,7 +321,7 @@ func run(in Input, kind string) emit.Case {
 		Failure string `json:"failure,omitempty"`
 		Steps   int    `json:"steps_observed"`
 	}{in, failure, len(obs)}
-	return emit.Case{Coq: coq, JSON: mirror, Nontrivial: accepted >= 1 && len(in.Ops) >= 5, Kind: kind, Sig: signature(in, obs, failure)}
+	return emit.Case{Coq: coq, JSON: mirror, Nontrivial: accepted >= 1 && len(in.Ops) >= 5, Kind: kind, Sig: signature(in, obs, failure)}, failure == "hang"
 }
 
 // ---- generator ---------------------------------------------------------------------------------
@@ -354,7 +358,7 @@ func gen(r *rand.Rand) (Input, string) {
 	}()
 	select {
 	case <-done:
-	case <-time.After(20 * time.Second):
+	case <-time.After(hangTimeout):
 	}
 	cp := in
 	cp.Ops = append([]Op{}, in.Ops...)
@@ -426,6 +430,7 @@ func genInto(r *rand.Rand, inp *Input, kindp *string) {
 	shadow := mempool.New[*Item](trace.Noop, in.Max, in.MaxSp)
 	usedStream := false
 	apply := func(o Op) {
+		in.Ops = append(in.Ops, o) // first: if the shadow hangs or panics here, run() reproduces it
 		switch o.Kind {
 		case "add":
 			shadow.Add(ctx, ptrs(o.Items))
@@ -458,7 +463,6 @@ func genInto(r *rand.Rand, inp *Input, kindp *string) {
 			shadow.FinishStreaming(ctx, ptrs(o.Items))
 			handed = nil
 		}
-		in.Ops = append(in.Ops, o)
 	}
 	for len(in.Ops) < nops {
 		x := r.Intn(100)
@@ -545,13 +549,21 @@ func TestDriver(t *testing.T) {
 			if err := json.Unmarshal(raw, &in); err != nil {
 				t.Fatal(err)
 			}
-			_ = w.Put(run(in, "replay"))
+			c, hung := run(in, "replay")
+			_ = w.Put(c)
+			if hung {
+				return
+			}
 		}
 		return
 	}
 	r := env.Rand()
 	for i := 0; i < env.N; i++ {
 		in, kind := gen(r)
-		_ = w.Put(run(in, kind))
+		c, hung := run(in, kind)
+		_ = w.Put(c)
+		if hung {
+			return
+		}
 	}
 }
